@@ -58,25 +58,6 @@ Definition move_blk_clearb (e : edit) (c : cursor) : bool :=
   | _, _ => true
   end.
 
-(** more generally: a block cursor on the source list is disjoint from the moved range or inside it, and a
-    block cursor on the target list does not have the gap strictly inside *)
-Definition move_blk_okb (e : edit) (c : cursor) : bool :=
-  match e, c with
-  | EMove p a lo hi gp0 s0 _, CBlock q b l h =>
-      let '(gp, s) := move_target p a lo hi gp0 s0 in
-      match gap_path_of gp s with
-      | None => false
-      | Some gpath =>
-          match plast gpath with
-          | None => false
-          | Some (ga, gi) =>
-              (negb (path_eqb q p && attr_eqb b a) || (h <=? lo) || (hi <=? l) || ((lo <=? l) && (h <=? hi))) &&
-              (negb (path_eqb q (pinit gpath) && attr_eqb b ga) || (gi <=? l) || (h <=? gi))
-          end
-      end
-  | _, _ => true
-  end.
-
 Definition move_ok (e : edit) (t : tree) (c : cursor) : Prop :=
   move_pre e /\
   match e with EMove _ _ lo hi _ _ _ => lo < hi | _ => True end /\
@@ -435,7 +416,7 @@ Proof.
 Qed.
 
 (** a block cursor on one of the two edited lists, all of whose statements are shifted alike *)
-Lemma move_block_on_list p a lo hi (gq : path) ga gi t t' q b l h xq c' :
+Lemma move_block_on_list (fixed : variant) p a lo hi (gq : path) ga gi t t' q b l h xq c' :
   lo < hi ->
   (forall j, length p < length gq -> firstn (length p) gq = p ->
              nth_error gq (length p) = Some (a, j) -> j < lo \/ hi <= j) ->
@@ -453,7 +434,8 @@ Lemma move_block_on_list p a lo hi (gq : path) ga gi t t' q b l h xq c' :
     match plast s1, plast s2 with
     | Some (a1, i1), Some (a2, i2) =>
         if path_eqb (pinit s1) (pinit s2) && attr_eqb a1 a2 && (i1 <=? i2)
-        then Ok (CBlock (pinit s1) a1 i1 (i2 + 1)) else Crash
+        then Ok (CBlock (pinit s1) a1 i1 (i2 + 1))
+        else if move_asserts fixed then Crash else Invalid
     | _, _ => Crash
     end)) = Ok c' ->
   valid_cursor t' c' /\ same t (CBlock q b l h) t' c'.
@@ -469,7 +451,7 @@ Proof.
     unfold tB in T. rewrite thru_snoc in T. cbn [fst] in T.
     destruct (length q =? length p) eqn:E.
     - apply andb_true_iff in T as [E1 E2]. apply path_eqb_eq in E1. apply attr_eqb_eq in E2. subst q b.
-      rewrite moved_on_B in M. destruct (UB eq_refl eq_refl) as [U|[U|U]]; try lia.
+      rewrite moved_on_B in M. destruct (UB eq_refl eq_refl) as [U|[U|U]]; try lia. tauto.
     - (* deeper under a moved statement: the block would have to be on the gap's list, which then lies
          inside the moved subtree *)
       exfalso. apply Nat.eqb_neq in E.
@@ -557,7 +539,7 @@ Proof.
   pose proof (move_node_sound p a lo hi gp0 s0 pl t t' nb gq ga ia s Gb Hlo Hhi VG NU MT MP AP) as NODE.
   pose proof (mpre_of_move_pre _ _ _ _ _ _ pl _ _ _ _ MT MP) as MPR.
   set (gi := match s with Before => ia | After => ia + 1 end) in *.
-  assert (FW' : forward_move t p a lo hi gp0 s0 c = Ok c') by exact FW.
+  assert (FW' : forward_move fixed t p a lo hi gp0 s0 c = Ok c') by exact FW.
   unfold forward_move in FW'. rewrite MT, gap_path_of_snoc in FW'. fold gi in FW'.
   unfold same_e. cbn [edit_del edit_new].
   destruct c as [q|q b l h|q sd].
@@ -588,16 +570,22 @@ Proof.
       apply andb_true_iff in OB as [E1 E2]. apply path_eqb_eq in E1. apply attr_eqb_eq in E2.
       assert (DIR : caseA p a lo gq ga gi \/ (caseB p a lo gq ga gi /\ mpre p a lo gq ga gi = true)).
       { unfold caseA, caseB. destruct (is_before (gq ++ [(ga, gi)]) (p ++ [(a, lo)])); auto. }
-      apply (move_block_on_list p a lo hi gq ga gi t t' q b l h xq c' Hlo Vunder Vsame DIR NODE Gq Hl Hh); auto.
+      apply (move_block_on_list fixed p a lo hi gq ga gi t t' q b l h xq c' Hlo Vunder Vsame DIR NODE Gq Hl Hh).
+      * left. auto.
       * intros _ _. cbn [negb orb] in C1. lia.
-      * intros E3 E4. rewrite E3, E4, path_eqb_refl, attr_eqb_refl in C2. cbn [negb orb andb] in C2. lia.
+      * intros E3 E4. assert (OG : path_eqb q gq && attr_eqb b ga = true).
+        { rewrite E3, E4, path_eqb_refl, attr_eqb_refl. reflexivity. }
+        rewrite OG in C2. cbn [negb orb andb] in C2. lia.
+      * exact FW'.
     + (* on the target list only *)
       apply andb_true_iff in OG as [E1 E2]. apply path_eqb_eq in E1. apply attr_eqb_eq in E2.
       assert (DIR : caseA p a lo gq ga gi \/ (caseB p a lo gq ga gi /\ mpre p a lo gq ga gi = true)).
       { unfold caseA, caseB. destruct (is_before (gq ++ [(ga, gi)]) (p ++ [(a, lo)])); auto. }
-      apply (move_block_on_list p a lo hi gq ga gi t t' q b l h xq c' Hlo Vunder Vsame DIR NODE Gq Hl Hh); auto.
-      * intros E3 E4. rewrite E3, E4, path_eqb_refl, attr_eqb_refl in OB. discriminate.
-      * intros _ _. rewrite E1, E2, path_eqb_refl, attr_eqb_refl in C2. cbn [negb orb andb] in C2. lia.
+      apply (move_block_on_list fixed p a lo hi gq ga gi t t' q b l h xq c' Hlo Vunder Vsame DIR NODE Gq Hl Hh).
+      * right. auto.
+      * intros E3 E4. exfalso. rewrite E3, E4, path_eqb_refl, attr_eqb_refl in OB. discriminate.
+      * intros _ _. cbn [negb orb andb] in C2. lia.
+      * exact FW'.
     + (* on neither edited list: the block moves with its anchor *)
       assert (NB : ~ (q = p /\ b = a)).
       { intros [-> ->]. rewrite path_eqb_refl, attr_eqb_refl in OB. discriminate. }
@@ -649,7 +637,7 @@ Proof.
   set (gi := match s with Before => ia | After => ia + 1 end) in *.
   assert (DIR : caseA p a lo gq ga gi \/ (caseB p a lo gq ga gi /\ mpre p a lo gq ga gi = true)).
   { unfold caseA, caseB. destruct (is_before (gq ++ [(ga, gi)]) (p ++ [(a, lo)])); auto. }
-  change (exists c', forward_move t p a lo hi gp0 s0 c = Ok c').
+  change (exists c', forward_move fixed t p a lo hi gp0 s0 c = Ok c').
   unfold forward_move. rewrite MT, gap_path_of_snoc. fold gi.
   destruct c as [q| |q sd]; [| contradiction |].
   - destruct (fm_total p a lo hi gq ga gi Hlo Vunder Vsame q DIR) as [q' ->]. simpl. eauto.
@@ -669,7 +657,7 @@ Definition move_cex_cursor : cursor := CNode [(Body, 0); (Body, 0)].
 Lemma move_refuted :
   exists t e c t' c',
     valid_edit t e /\ apply_edit e t = Some t' /\ valid_cursor t c /\
-    fwd_edit false e t c = Ok c' /\ ~ inb_cursor t' c'.
+    fwd_edit code_now e t c = Ok c' /\ ~ inb_cursor t' c'.
 Proof.
   exists move_cex_tree, move_cex_edit, move_cex_cursor.
   eexists. eexists.
@@ -691,7 +679,7 @@ Definition hull_cex_edit : edit := EMove [] Body 1 2 [(Body, 0)] Before 9.    (*
 Lemma move_block_hull_refuted :
   exists t e c t' c' L L',
     valid_edit t e /\ move_pre e /\ apply_edit e t = Some t' /\ valid_cursor t c /\
-    fwd_edit false e t c = Ok c' /\
+    fwd_edit code_now e t c = Ok c' /\
     match c, c' with
     | CBlock p a lo hi, CBlock p' a' lo' hi' =>
         block_labels t p a lo hi = Some L /\ block_labels t' p' a' lo' hi' = Some L' /\ L = [2; 3] /\ L' = [2; 1; 3]
@@ -713,7 +701,7 @@ Qed.
 Lemma move_block_crash_refuted :
   valid_edit hull_cex_tree hull_cex_edit /\ move_pre hull_cex_edit /\
   valid_cursor hull_cex_tree (CBlock [] Body 0 2) /\
-  fwd_edit false hull_cex_edit hull_cex_tree (CBlock [] Body 0 2) = Crash.
+  fwd_edit code_now hull_cex_edit hull_cex_tree (CBlock [] Body 0 2) = Crash.
 Proof. vm_compute. repeat split; reflexivity. Qed.
 
 (** hypotheses of [move_sound] are satisfiable (a move to a later gap at the block's own level, and a
@@ -723,5 +711,5 @@ Example move_sound_example :
   let e := EMove [] Body 0 1 [(Body, 1); (Body, 0)] After 9 in
   let c := CBlock [(Body, 0)] Body 0 2 in
   valid_edit t e /\ move_pre e /\ move_blk_okb e c = true /\ valid_cursor t c /\
-  exists t' c', apply_edit e t = Some t' /\ fwd_edit false e t c = Ok c'.
+  exists t' c', apply_edit e t = Some t' /\ fwd_edit code_now e t c = Ok c'.
 Proof. vm_compute. repeat split; eauto. Qed.
